@@ -238,7 +238,7 @@ PROPS = {
         level_text="Coq theorems on the store model: a map filter is the conjunction of its entries (per-operator meaning m_entry), a find returns in id order exactly the stored documents the reference evaluation accepts whatever indexes exist (via C11), find(nil) lists everything, stored documents are read back as written, $set/$unset act as Map.Set/Delete (dictionary semantics = C15). Tied to pkg/store by replaying generated histories (inserts, updates incl. upsert and malformed updates, deletes, finds with sort/skip/limit, malformed filters) on the real store and comparing every returned document list, count and error class with the model evaluated in Coq, plus a Go reference evaluator over the documents stored before each step as failing-input oracle.",
         level_note="Trusted: Coq kernel + vm_compute; hand transcription of pkg/store into theories/Store (B-trees abstracted to sorted lists / tuple sets); theorems cover filters whose evaluation raises no error on the stored documents, ill-formed filters only by the differential run; sort is modelled as a stable insertion sort (Go's slices.SortFunc for at most 12 elements).",
         technique="Coq proofs (filter unfolding, index invariant, plan soundness) + vm_compute correspondence with the Go store",
-        quick_n=220, thorough_n=6000, shard=14, mismatch_is_failure=True,
+        quick_n=220, thorough_n=1500, shard=14, mismatch_is_failure=True,
         assumptions=["one operation at a time (the store serialises them under its mutex; C20)", "result sets of at most 12 documents when sorted"],
         trusted_base=["pkg/store helper.go/store.go/segment.go/executionplan.go/stream.go transcribed by hand into theories/Store (B-trees abstracted: sorted list of documents, flat set of (key path, id) tuples per index)", COMMON_MODEL],
     ),
@@ -246,7 +246,7 @@ PROPS = {
         level_text="Coq theorem for every reachable state (any history of data and index operations): a find through execution plan and index scans equals the full-scan evaluation, for every filter whose evaluation raises no error; hence stores with the same documents answer alike whatever their indexes. Proved from plan soundness (bounds contain every matching document's key; induction over the filter incl. $and/$or) and an index completeness/soundness invariant over histories. Tied to the code by running each generated data history under three index configurations on the real store, comparing all results with each other and with the model. Partial indexes are outside the theorem: known finding F-C11-b.",
         level_note="Trusted: as C10. Scope of the theorem: non-partial indexes, index keys that are field names; unique indexes legitimately reject mutations, so configurations are compared until the first such rejection.",
         technique="Coq proof of plan soundness + index invariant (find via indexes = full scan) + differential runs over index configurations",
-        quick_n=240, thorough_n=6000, shard=14, mismatch_is_failure=True,
+        quick_n=240, thorough_n=1500, shard=14, mismatch_is_failure=True,
         assumptions=["one operation at a time (C20)"],
         trusted_base=["pkg/store helper.go/store.go/segment.go/executionplan.go/stream.go transcribed by hand into theories/Store (B-trees abstracted: sorted list of documents, flat set of (key path, id) tuples per index)", COMMON_MODEL],
     ),
@@ -254,7 +254,7 @@ PROPS = {
         level_text="Coq theorems over all histories: a rejected Store/Swap (duplicate id, duplicate unique key, missing id, unknown id) returns the state unchanged (documents, every index, streams, log); a rejected index build leaves documents and all other indexes intact; in every reachable state no two documents share an id or a key of a unique index. Tied to the code by histories rich in failing mutations with a full scan and one query through every available index after each step.",
         level_note="Trusted: as C10. Multi-document Insert/Update calls are sequential in code and model: documents before the rejected one stay applied (the property speaks of the rejected document).",
         technique="Coq invariant proof (sorted unique ids, index completeness/soundness/uniqueness; conflict check makes index insertion infallible) + vm_compute correspondence",
-        quick_n=120, thorough_n=3000, shard=8, mismatch_is_failure=True,
+        quick_n=120, thorough_n=800, shard=8, mismatch_is_failure=True,
         assumptions=["one operation at a time (C20)"],
         trusted_base=["pkg/store helper.go/store.go/segment.go/executionplan.go/stream.go transcribed by hand into theories/Store (B-trees abstracted: sorted list of documents, flat set of (key path, id) tuples per index)", COMMON_MODEL],
     ),
@@ -262,7 +262,7 @@ PROPS = {
         level_text="Coq theorems: for every history, the events an open watcher has pending are exactly the (operation, id) of the successful mutations since it was opened whose document matches its filter, in order, minus those already read; rejected mutations log nothing; reading/closing/opening one watcher leaves the others alone; the pump is a FIFO queue (delivered ++ buffered = accepted). Tied to the code by histories with watchers opened, read and closed at random points (consumers that read eagerly, late or never) compared with the model.",
         level_note="Trusted: as C10; the mutation log is a ghost field appended where the code calls emit. Runtime part not provable in the model and only measured: writers are not blocked by an absent consumer (every history completes under a deadline), promptness of Close.",
         technique="Coq invariant over histories (ghost mutation log) + queue-machine proof for the pump + vm_compute correspondence",
-        quick_n=200, thorough_n=5000, shard=14, mismatch_is_failure=True,
+        quick_n=200, thorough_n=1200, shard=14, mismatch_is_failure=True,
         assumptions=["events ready when the consumer reads are delivered within 40 ms (harness drain timeout)"],
         trusted_base=["pkg/store helper.go/store.go/segment.go/executionplan.go/stream.go transcribed by hand into theories/Store (B-trees abstracted: sorted list of documents, flat set of (key path, id) tuples per index)", COMMON_MODEL],
     ),
